@@ -315,7 +315,8 @@ func c06ReadTimeout(rt int) string {
 	h := func(w *gldap.ResponseWriter, r *gldap.Request) {
 		rc.enter(r)
 		if r.VerifMessage().GetID() == 1000 {
-			time.Sleep(time.Duration(rt+200) * time.Millisecond)
+			time.Sleep(time.Duration(rt+900) * time.Millisecond)
+			rc.exit(r)
 		}
 		answer(w, r)
 	}
@@ -331,13 +332,22 @@ func c06ReadTimeout(rt int) string {
 	defer cl.close()
 	_ = cl.send(opFrame("search", 1000))
 	time.Sleep(time.Duration(rt+300) * time.Millisecond)
+	// (the timeout has fired, the first handler is busy for another 600 ms)
 	_ = cl.send(append(opFrame("bind", 1001), opFrame("search", 1002)...))
-	time.Sleep(400 * time.Millisecond)
+	time.Sleep(1000 * time.Millisecond)
 	verdict := "ok"
 	rc.mu.Lock()
+	firstDone := 1 << 30
+	for _, e := range rc.exits {
+		firstDone = e.seq
+	}
 	for _, e := range rc.entries {
 		if int64(e.reqID) != e.msgID-1000+1 {
 			verdict = fmt.Sprintf("conn %d: request #%d in arrival order has Request.ID %d (read timeout %d ms)", e.conn, e.msgID-1000+1, e.reqID, rt)
+		}
+		// whatever is served of the later requests is served without waiting for the first handler
+		if e.msgID > 1000 && e.seq > firstDone && verdict == "ok" {
+			verdict = fmt.Sprintf("request %d, sent while an earlier handler was busy, reached its handler only after that handler had returned (read timeout %d ms)", e.msgID-1000+1, rt)
 		}
 	}
 	rc.mu.Unlock()
